@@ -83,6 +83,15 @@ type c08Def struct {
 	Body   *c08Expr     `json:"body"`
 	Binds  []c08Aux     `json:"binds,omitempty"` // (let (binds) (defun …)): variables captured by the definition
 	Sp     int          `json:"sp,omitempty"`    // spelling of the name in the defun form
+	Macro  bool         `json:"macro,omitempty"` // (defmacro name () body): a macro without parameters — for the model a function without parameters
+}
+
+// the defining form: a macro without parameters is, for the model, a function without parameters
+func (d *c08Def) definer(styled bool) string {
+	if d.Macro && styled {
+		return "defmacro"
+	}
+	return "defun"
 }
 
 // every variable a body may use
@@ -131,7 +140,8 @@ func c08Spell(name string, sp int) string {
 
 // a step of a history
 type c08Step struct {
-	Kind string   `json:"kind"` // def | undef | eval | again
+	Kind string   `json:"kind"` // def | undef | setvar | eval | again
+	VarKind string `json:"varkind,omitempty"` // setvar: defvar | defparameter | setq (Name = the variable, Expr = the init form)
 	Def  *c08Def  `json:"def,omitempty"`
 	Expr *c08Expr `json:"expr,omitempty"`
 	J    int      `json:"j,omitempty"`    // again: index among the eval steps so far
@@ -295,12 +305,12 @@ func (s c08Step) text(mangle func(string) string, styled bool) string {
 				if i > 0 {
 					bs.WriteByte(' ')
 				}
-				bs.WriteString("(" + bd.Name + " ")
+				bs.WriteString("(" + c08VarName(bd.Name, mangle, styled) + " ")
 				bd.Init.render(&bs, mangle, styled)
 				bs.WriteByte(')')
 			}
 			if styled {
-				b.WriteString("(let (" + bs.String() + ") (defun " + name + " (" + ll.String() + ") ")
+				b.WriteString("(let (" + bs.String() + ") (" + s.Def.definer(styled) + " " + name + " (" + ll.String() + ") ")
 				s.Def.Body.render(&b, mangle, styled)
 				b.WriteString("))")
 			} else {
@@ -310,7 +320,7 @@ func (s c08Step) text(mangle func(string) string, styled bool) string {
 			}
 			break
 		}
-		b.WriteString("(defun " + name + " (" + ll.String() + ") ")
+		b.WriteString("(" + s.Def.definer(styled) + " " + name + " (" + ll.String() + ") ")
 		s.Def.Body.render(&b, mangle, styled)
 		b.WriteByte(')')
 	case "undef":
@@ -320,6 +330,10 @@ func (s c08Step) text(mangle func(string) string, styled bool) string {
 		} else {
 			b.WriteString("(undef " + name + ")")
 		}
+	case "setvar":
+		b.WriteString("(" + s.VarKind + " " + c08VarName(s.Name, mangle, styled) + " ")
+		s.Expr.render(&b, mangle, styled)
+		b.WriteByte(')')
 	case "eval":
 		s.Expr.render(&b, mangle, styled)
 	case "again":
@@ -408,6 +422,7 @@ func (d *c08Def) sites(out *[][2]string) {
 // C05's business). It is not an oracle: expected results come from the Lean model.
 
 type c08Filter struct {
+	globals map[string]c08V // global variables (defvar / defparameter / setq at top level)
 	defs  map[string]*c08Def
 	cenv  map[string]map[string]c08V // captured variables of the current definition of a name
 	steps int
@@ -436,6 +451,9 @@ func (f *c08Filter) eval(e *c08Expr, env map[string]c08V, depth int) (c08V, bool
 		return c08V{kind: 'k', s: e.Name}, true
 	case "var":
 		v, has := env[e.Name]
+		if !has {
+			v, has = f.globals[e.Name]
+		}
 		return v, has
 	case "prim":
 		a, ok := f.eval(e.Args[0], env, depth+1)
@@ -599,7 +617,7 @@ func c08Bind(d *c08Def, vals []c08V) (map[string]c08V, bool) {
 
 // c08Admissible runs the history through the filter.
 func c08Admissible(steps []c08Step) bool {
-	f := &c08Filter{defs: map[string]*c08Def{}, cenv: map[string]map[string]c08V{}, ok: true}
+	f := &c08Filter{defs: map[string]*c08Def{}, cenv: map[string]map[string]c08V{}, globals: map[string]c08V{}, ok: true}
 	var exprs []*c08Expr
 	total := 0
 	for _, s := range steps {
@@ -623,6 +641,13 @@ func c08Admissible(steps []c08Step) bool {
 		case "undef":
 			delete(f.defs, s.Name)
 			delete(f.cenv, s.Name)
+		case "setvar":
+			if _, bound := f.globals[s.Name]; bound && s.VarKind == "defvar" {
+				break // defvar of a bound variable: nothing is evaluated
+			}
+			if v, ok := f.eval(s.Expr, map[string]c08V{}, 0); ok {
+				f.globals[s.Name] = v
+			}
 		case "eval":
 			exprs = append(exprs, s.Expr)
 			f.eval(s.Expr, map[string]c08V{}, 0)
@@ -644,6 +669,8 @@ func c08Admissible(steps []c08Step) bool {
 // generator
 
 type c08Program struct {
+	Vars   []c08Step // initial definitions of the global variables (constant / arithmetic init forms)
+	VarPos int       // where they go among the function definitions (varies with the permutation)
 	Defs   []*c08Def // initial definitions, canonical order f0..fk-1 (rank order)
 	Tail   []c08Step // what follows the initial definitions
 	Shape  string
@@ -651,6 +678,8 @@ type c08Program struct {
 }
 
 type c08Gen struct {
+	globals []string // global variables of the program (uqg0, uqg1: unique per variant in the implementation text)
+	noCalls bool     // the definition being filled captures a variable that shadows a global one: no calls
 	capN  int // captured variables get names that are unique in the program (c0, d0, c1, …)
 	rng   *lib.Rng
 	funcs []*c08Def // signatures of the functions that may be called (params known)
@@ -725,6 +754,11 @@ func c08Has(vars []string, v string) bool {
 // keyword arguments (in any order) only when all optional ones are supplied.
 func (g *c08Gen) call(i int, depth int, vars []string, guarded bool) *c08Expr {
 	r := g.rng
+	if g.noCalls {
+		// slip looks a free variable up through the scopes of the callers before the closure and the
+		// globals (C01's business): a function whose closure shadows a global variable calls nothing
+		return c08Prim("+", g.expr(i, depth-1, vars, guarded, false), c08Const(1))
+	}
 	var cands []int
 	for j := range g.funcs {
 		if j > i || guarded {
@@ -770,7 +804,10 @@ func (g *c08Gen) call(i int, depth int, vars []string, guarded bool) *c08Expr {
 // callOf builds the argument list for callee from its lambda list.
 func (g *c08Gen) callOf(callee *c08Def, counter *c08Expr, arg func() *c08Expr) *c08Expr {
 	r := g.rng
-	args := []*c08Expr{counter}
+	var args []*c08Expr
+	if len(callee.Params) > 0 {
+		args = append(args, counter)
+	}
 	for k := 1; k < len(callee.Params); k++ {
 		args = append(args, arg())
 	}
@@ -831,9 +868,22 @@ func (g *c08Gen) fill(i int, d *c08Def, callsInBinds bool) {
 	r := g.rng
 	d.Aux = nil
 	d.Binds = nil
+	g.noCalls = false
+	defer func() { g.noCalls = false }()
 	if r.Chance(25) {
 		// the defun sits inside a let and captures its variables
-		for _, x := range []string{"c", "d"}[:1+r.Intn(2)] {
+		shadow := ""
+		if len(g.globals) > 0 && r.Chance(40) {
+			// the captured variable has the name of a global one: the body sees the captured value; a
+			// later definition of the same function outside a let sees the global value again
+			shadow = g.globals[r.Intn(len(g.globals))]
+			g.noCalls = true
+		}
+		for q, x := range []string{"c", "d"}[:1+r.Intn(2)] {
+			if q == 0 && shadow != "" {
+				d.Binds = append(d.Binds, c08Aux{Name: shadow, Init: c08Const(int64(r.Intn(13)) - 3)})
+				continue
+			}
 			var init *c08Expr
 			switch {
 			case callsInBinds && r.Chance(40):
@@ -848,11 +898,16 @@ func (g *c08Gen) fill(i int, d *c08Def, callsInBinds bool) {
 		g.capN++
 	}
 	vars := d.vars()
-	if r.Chance(35) {
+	for _, gv := range g.globals {
+		if !c08Has(vars, gv) {
+			vars = append(vars, gv) // free variables of the body: the global value at the time of the call
+		}
+	}
+	if r.Chance(35) && !d.Macro {
 		for _, x := range []string{"u", "w"}[:1+r.Intn(2)] {
 			init := g.expr(i, 1+r.Intn(2), vars, false, r.Chance(30))
-			if init.Kind == "const" || init.Kind == "var" {
-				// slip evaluates an &aux init only when it is a list form
+			if init.Kind == "const" || init.Kind == "var" || (init.Kind == "call" && len(init.Args) == 0) {
+				// slip evaluates an &aux init only when it is a list form with at least two elements
 				init = c08Prim("+", init, c08Const(int64(r.Intn(5))))
 			}
 			d.Aux = append(d.Aux, c08Aux{Name: x, Init: init})
@@ -867,6 +922,11 @@ func (g *c08Gen) body(i int, params []string) *c08Expr {
 	r := g.rng
 	depth := 2 + r.Intn(3)
 	hasN := c08Has(params, "n")
+	if len(g.globals) > 0 && r.Chance(12) {
+		// the body is the bare symbol of a global variable: Lambda.Compile stores the variable entry
+		// itself when the variable does not exist yet
+		return c08Var(g.globals[r.Intn(len(g.globals))])
+	}
 	switch r.Intn(10) {
 	case 0, 1, 2:
 		if !hasN {
@@ -901,11 +961,29 @@ func (g *c08Gen) program() *c08Program {
 	for i := 0; i < k; i++ {
 		g.funcs = append(g.funcs, g.signature(fmt.Sprintf("f%d", i)))
 	}
+	if r.Chance(25) {
+		// a macro without parameters as the function of the highest rank (it calls nothing): defmacro
+		// registers, patches and shares the Lambda of the name the way defun does
+		g.funcs = append(g.funcs, &c08Def{Name: "mc", Macro: true, Sp: g.spelling(false)})
+	}
 	g.capN = 0
+	g.globals = nil
+	if r.Chance(45) {
+		g.globals = []string{"uqg0", "uqg1"}[:1+r.Intn(2)]
+	}
 	for i, d := range g.funcs {
 		g.fill(i, d, false)
 	}
-	p := &c08Program{Defs: g.funcs}
+	p := &c08Program{Defs: g.funcs, VarPos: r.Intn(8)}
+	varKinds := []string{"defvar", "defparameter", "setq"}
+	for _, gv := range g.globals {
+		// defined anywhere among the function definitions: before or after the functions that read them
+		init := c08Const(int64(r.Intn(21)) - 5)
+		if r.Chance(30) {
+			init = c08Prim([]string{"+", "-", "*"}[r.Intn(3)], c08Const(int64(r.Intn(9))), c08Const(int64(r.Intn(5))))
+		}
+		p.Vars = append(p.Vars, c08Step{Kind: "setvar", VarKind: varKinds[r.Intn(3)], Name: gv, Expr: init})
+	}
 	// body expressions
 	nb := 1 + r.Intn(3)
 	nEval := 0
@@ -919,7 +997,7 @@ func (g *c08Gen) program() *c08Program {
 		}
 	}
 	for b := 0; b < nb; b++ {
-		evalStep(g.expr(-1, 2, nil, false, true))
+		evalStep(g.expr(-1, 2, g.globals, false, true))
 	}
 	// re-evaluation rounds
 	rounds := []int{0, 0, 1, 2, 4}[r.Intn(5)]
@@ -935,7 +1013,7 @@ func (g *c08Gen) program() *c08Program {
 	redefine := func(i int, tag string) {
 		// a new definition of an existing function: same lambda list up to &aux, new &aux and body
 		old := g.funcs[i]
-		nd := &c08Def{Name: old.Name, Params: old.Params, Opt: old.Opt, Key: old.Key, Sp: g.spelling(true)}
+		nd := &c08Def{Name: old.Name, Params: old.Params, Opt: old.Opt, Key: old.Key, Sp: g.spelling(!old.Macro), Macro: old.Macro}
 		g.fill(i, nd, true)
 		p.Tail = append(p.Tail, c08Step{Kind: "def", Def: nd, Tag: tag})
 	}
@@ -948,7 +1026,18 @@ func (g *c08Gen) program() *c08Program {
 		evalStep(c08Call(nm, c08Const(int64(r.Intn(3))), c08Const(int64(r.Intn(9)))))
 	}
 	for q := 0; q < nev; q++ {
-		switch r.Intn(4) {
+		choice := r.Intn(4)
+		if len(g.globals) > 0 && r.Chance(35) {
+			choice = 4
+		}
+		switch choice {
+		case 4:
+			// a global variable gets a new value (defvar of a bound variable changes nothing): every
+			// function compiled before or after sees it on its next call
+			kind := varKinds[r.Intn(3)]
+			init := g.expr(-1, 2, g.globals, false, r.Chance(40))
+			p.Tail = append(p.Tail, c08Step{Kind: "setvar", VarKind: kind, Name: g.globals[r.Intn(len(g.globals))], Expr: init})
+			p.Events = append(p.Events, "gvar-"+kind)
 		case 0, 1:
 			i := r.Intn(len(g.funcs))
 			redefine(i, "redef")
@@ -982,12 +1071,31 @@ func (g *c08Gen) program() *c08Program {
 // behind the first evaluation group (a late definition: the calls fail first, then work).
 func (p *c08Program) history(perm []int, late int) []c08Step {
 	var steps []c08Step
-	for _, i := range perm {
+	// the variable definitions go to a position among the function definitions that depends on the
+	// permutation (their init forms are constant: they commute with everything)
+	pos := make([]int, len(p.Vars))
+	for k := range p.Vars {
+		h := p.VarPos + 3*k
+		for q, i := range perm {
+			h += (q + 1) * i
+		}
+		pos[k] = h % (len(perm) + 1)
+	}
+	emitVars := func(at int) {
+		for k, vs := range p.Vars {
+			if pos[k] == at {
+				steps = append(steps, vs)
+			}
+		}
+	}
+	for q, i := range perm {
+		emitVars(q)
 		if i == late {
 			continue
 		}
 		steps = append(steps, c08Step{Kind: "def", Def: p.Defs[i]})
 	}
+	emitVars(len(perm))
 	if late < 0 {
 		return append(steps, p.Tail...)
 	}
@@ -1032,7 +1140,7 @@ var c08Modes = []string{"list", "list-obj", "compiled", "compiled-fresh", "batch
 type c08Job struct {
 	ID     int      `json:"id"`
 	Mode   string   `json:"mode"`
-	Kinds  []string `json:"kinds"` // def | eval | again
+	Kinds  []string `json:"kinds"` // def (defun, defvar, defparameter) | undef | setq | eval | again
 	Texts  []string `json:"texts"` // mangled Lisp text of def / eval steps
 	Js     []int    `json:"js"`
 	Suffix string   `json:"suffix"`
@@ -1161,7 +1269,7 @@ func c08RunVariant(job *c08Job) *c08Result {
 		for i := 0; i < n; i++ {
 			i := i
 			switch job.Kinds[i] {
-			case "def", "undef":
+			case "def", "undef", "setq":
 				protect(i, func() slip.Object { return evalList(readOne(job.Texts[i])) })
 			case "eval":
 				var code slip.Code
@@ -1185,7 +1293,7 @@ func c08RunVariant(job *c08Job) *c08Result {
 		if job.Mode == "precompiled" {
 			// the first group of eval steps is compiled before any definition is evaluated
 			i := 0
-			for i < n && job.Kinds[i] == "def" {
+			for i < n && (job.Kinds[i] == "def" || job.Kinds[i] == "setq") {
 				i++
 			}
 			for ; i < n && job.Kinds[i] == "eval"; i++ {
@@ -1205,7 +1313,7 @@ func c08RunVariant(job *c08Job) *c08Result {
 		for i := 0; i < n; i++ {
 			i := i
 			switch job.Kinds[i] {
-			case "def", "undef":
+			case "def", "undef", "setq":
 				protect(i, func() slip.Object {
 					code := readOne(job.Texts[i])
 					code.Compile()
@@ -1252,7 +1360,7 @@ func c08RunVariant(job *c08Job) *c08Result {
 				i++
 				continue
 			}
-			if job.Kinds[i] == "undef" {
+			if job.Kinds[i] == "undef" || job.Kinds[i] == "setq" {
 				// fmakunbound is evaluated when its form is reached: a batch of its own
 				ii := i
 				protect(ii, func() slip.Object {
@@ -1471,7 +1579,53 @@ func c08RunJobs(jobs []*c08Job, nw int) []*c08Result {
 		}()
 	}
 	wg.Wait()
+	// Load independence: a job on which the workers died or ran into the deadline while all workers
+	// were busy is run once more ALONE (nothing else running, four times the deadline) before it is
+	// reported; only a death that repeats there is a host crash.
+	for k, r := range results {
+		if r == nil || r.Skipped || r.Outs != nil {
+			continue
+		}
+		if alone := c08RunAlone(jobs[k]); alone != nil {
+			results[k] = alone
+		}
+	}
 	return results
+}
+
+// c08RunAlone runs one job in a fresh worker process with a generous deadline; nil = it died again.
+func c08RunAlone(job *c08Job) *c08Result {
+	p := c08Spawn()
+	b, _ := json.Marshal(job)
+	if _, err := p.in.Write(append(b, '\n')); err != nil {
+		_ = p.cmd.Process.Kill()
+		_ = p.cmd.Wait()
+		return nil
+	}
+	type rd struct {
+		line []byte
+		err  error
+	}
+	ch := make(chan rd, 1)
+	go func() {
+		l, e := p.out.ReadBytes('\n')
+		ch <- rd{l, e}
+	}()
+	var res c08Result
+	select {
+	case x := <-ch:
+		if x.err != nil || json.Unmarshal(x.line, &res) != nil || res.ID != job.ID {
+			_ = p.cmd.Process.Kill()
+			_ = p.cmd.Wait()
+			return nil
+		}
+	case <-time.After(4 * c08JobTimeout):
+		_ = p.cmd.Process.Kill()
+		_ = p.cmd.Wait()
+		return nil
+	}
+	p.close()
+	return &res
 }
 
 // ---------------------------------------------------------------------------------------------
@@ -1494,7 +1648,18 @@ func c08MakeJob(id int, mode string, steps []c08Step, suffix string) *c08Job {
 	mangle := func(s string) string { return s + suffix }
 	job := &c08Job{ID: id, Mode: mode, Suffix: suffix}
 	for _, s := range steps {
-		job.Kinds = append(job.Kinds, s.Kind)
+		kind := s.Kind
+		if kind == "setvar" {
+			// Code.Compile evaluates defvar / defparameter forms with the definitions (first phase of
+			// the two-phase load); a top-level setq is evaluated where it stands, like fmakunbound
+			// (only init forms that cannot fail are batched with the definitions: an error in the first
+			// phase aborts the compilation of the whole batch, which is the documented load behaviour)
+			kind = "def"
+			if s.VarKind == "setq" || !c08ConstantInit(s.Expr) {
+				kind = "setq"
+			}
+		}
+		job.Kinds = append(job.Kinds, kind)
 		job.Js = append(job.Js, s.J)
 		if s.Kind == "again" {
 			job.Texts = append(job.Texts, "")
@@ -1503,6 +1668,17 @@ func c08MakeJob(id int, mode string, steps []c08Step, suffix string) *c08Job {
 		}
 	}
 	return job
+}
+
+// an init form made of integers and arithmetic only
+func c08ConstantInit(e *c08Expr) bool {
+	switch e.Kind {
+	case "const":
+		return true
+	case "prim":
+		return (e.Name == "+" || e.Name == "-" || e.Name == "*") && c08ConstantInit(e.Args[0]) && c08ConstantInit(e.Args[1])
+	}
+	return false
 }
 
 const c08Fuel = 3000
@@ -1526,6 +1702,7 @@ func c08Construct(steps []c08Step, at int) string {
 	defined := map[string]int{}
 	ever := map[string]bool{}
 	redefs, undefs, late := 0, 0, false
+	gvars := 0
 	fwd := "none"
 	note := func(d *c08Def) {
 		var sites [][2]string
@@ -1540,7 +1717,7 @@ func c08Construct(steps []c08Step, at int) string {
 			}
 		}
 	}
-	lambdaList, closure := false, false
+	lambdaList, closure, macro := false, false, false
 	for i := 0; i <= at && i < len(steps); i++ {
 		s := steps[i]
 		switch s.Kind {
@@ -1557,12 +1734,17 @@ func c08Construct(steps []c08Step, at int) string {
 			if len(s.Def.Binds) > 0 {
 				closure = true
 			}
+			if s.Def.Macro {
+				macro = true
+			}
 			note(s.Def)
 			defined[s.Def.Name] = i
 			ever[s.Def.Name] = true
 		case "undef":
 			undefs++
 			delete(defined, s.Name)
+		case "setvar":
+			gvars++
 		}
 	}
 	rd := strconv.Itoa(redefs)
@@ -1594,6 +1776,12 @@ func c08Construct(steps []c08Step, at int) string {
 	}
 	if closure {
 		extra += " closure"
+	}
+	if macro {
+		extra += " macro"
+	}
+	if gvars > 0 {
+		extra += " gvar"
 	}
 	return fmt.Sprintf("step=%s redefs=%s fwd=%s%s", kind, rd, fwd, extra)
 }
@@ -1848,6 +2036,135 @@ func c08SweepCells() []c08Cell {
 		gl := &c08Def{Name: "g", Params: []string{"uqx"}, Body: bodyOf}
 		cells = append(cells, c08Cell{"lambda-form-bare-variable/" + p.name, []c08Step{def(gl, ""), ev(c08Call("g", c08Const(3))), ev(c08Call("g", c08Const(5))), ag(0)}})
 	}
+	// global variables: the reader compiled before / after the variable exists (bare body symbol =
+	// pointer to the variable entry, or a reference inside a list form = looked up by name), the three
+	// defining forms, later assignments, re-evaluation of kept objects
+	setv := func(kind, name string, init *c08Expr) c08Step {
+		return c08Step{Kind: "setvar", VarKind: kind, Name: name, Expr: init}
+	}
+	vpositions := []struct {
+		name string
+		body func(v *c08Expr) *c08Expr
+	}{
+		{"bare", func(v *c08Expr) *c08Expr { return v }},
+		{"prim-arg", func(v *c08Expr) *c08Expr { return c08Prim("+", v, c08Var("x")) }},
+		{"call-arg", func(v *c08Expr) *c08Expr { return c08Call("h", v, c08Var("x")) }},
+		{"if-test", func(v *c08Expr) *c08Expr { return c08If(c08Prim("<", v, c08Const(15)), c08Const(1), c08Const(2)) }},
+		{"if-then", func(v *c08Expr) *c08Expr { return c08If(c08Prim("<", c08Var("x"), c08Const(100)), v, c08Const(0)) }},
+		{"let-init", func(v *c08Expr) *c08Expr { return c08Let("y", v, c08Prim("+", c08Var("y"), c08Const(1))) }},
+		{"let-body", func(v *c08Expr) *c08Expr { return c08Let("y", c08Const(1), c08Prim("+", v, c08Var("y"))) }},
+		{"aux-init", nil},
+	}
+	for _, p := range vpositions {
+		mk := func(name string) *c08Def {
+			if p.body == nil {
+				return &c08Def{Name: name, Params: []string{"x"}, Aux: []c08Aux{{Name: "u", Init: c08Prim("*", c08Var("uqv"), c08Const(2))}}, Body: c08Prim("+", c08Var("u"), c08Var("x"))}
+			}
+			return &c08Def{Name: name, Params: []string{"x"}, Body: p.body(c08Var("uqv"))}
+		}
+		rd, rd2 := mk("rd"), mk("rd2")
+		call := func(n string, k int64) *c08Expr { return c08Call(n, c08Const(k)) }
+		for _, kind := range []string{"defvar", "defparameter", "setq"} {
+			cells = append(cells,
+				// the variable first, then its reader
+				c08Cell{"gvar-" + kind + "/variable-first/" + p.name, []c08Step{def(h(0), ""), setv(kind, "uqv", c08Const(10)), def(rd, ""), ev(call("rd", 3)), setv("setq", "uqv", c08Const(20)), ag(0), ev(call("rd", 4))}},
+				// the reader first: compiled while the variable does not exist; then a second reader
+				// (compiled while only the placeholder exists), the definition, assignments of every kind
+				c08Cell{"gvar-" + kind + "/reader-first/" + p.name, []c08Step{def(h(0), ""), def(rd, ""), def(rd2, ""), setv(kind, "uqv", c08Const(10)), ev(call("rd", 3)), ev(call("rd2", 3)),
+					setv("setq", "uqv", c08Const(20)), ag(0), ag(1), setv("defparameter", "uqv", c08Prim("+", c08Var("uqv"), c08Const(5))), ag(0), ag(1),
+					setv("defvar", "uqv", c08Const(99)), ag(0), ev(call("rd", 5))}},
+			)
+		}
+		cells = append(cells,
+			// called before the variable has a value: unbound-variable, then the definition reaches it
+			c08Cell{"gvar-unbound-then-defined/" + p.name, []c08Step{def(h(0), ""), def(rd, ""), ev(call("rd", 3)), setv("defvar", "uqv", c08Const(10)), ag(0), setv("setq", "uqv", c08Const(30)), ag(0)}},
+			// the reader is defined again after the variable exists
+			c08Cell{"gvar-reader-redefined/" + p.name, []c08Step{def(h(0), ""), def(rd, ""), setv("defvar", "uqv", c08Const(10)), ev(call("rd", 3)), def(mk("rd"), "redef"), ag(0), setv("setq", "uqv", c08Const(11)), ag(0)}},
+		)
+	}
+	{
+		// the value of a variable computed by calls; a variable read at top level; defvar keeps the value
+		rd := &c08Def{Name: "rd", Params: []string{"x"}, Body: c08Var("uqv")}
+		cells = append(cells,
+			c08Cell{"gvar-init-calls", []c08Step{def(rd, ""), def(h(0), ""), setv("defparameter", "uqv", c08Call("h", c08Const(1), c08Const(2))), ev(c08Call("rd", c08Const(0))),
+				setv("setq", "uqv", c08Prim("+", c08Call("rd", c08Const(0)), c08Const(1))), ag(0), def(h(1), "redef"), setv("defvar", "uqv", c08Call("h", c08Const(1), c08Const(2))), ag(0),
+				setv("defparameter", "uqv", c08Call("h", c08Const(1), c08Const(2))), ag(0)}},
+			c08Cell{"gvar-toplevel", []c08Step{ev(c08Var("uqv")), setv("setq", "uqv", c08Const(4)), ag(0), ev(c08Prim("+", c08Var("uqv"), c08Const(1))), setv("defparameter", "uqv", c08Const(6)), ag(0), ag(1)}},
+			c08Cell{"gvar-two-variables", []c08Step{def(&c08Def{Name: "rd", Params: []string{"x"}, Body: c08Var("uqv")}, ""), def(&c08Def{Name: "rw", Params: []string{"x"}, Body: c08Var("uqw")}, ""),
+				def(&c08Def{Name: "rs", Params: []string{"x"}, Body: c08Prim("-", c08Var("uqv"), c08Var("uqw"))}, ""),
+				setv("defvar", "uqw", c08Const(1)), setv("defvar", "uqv", c08Const(50)), ev(c08Call("rd", c08Const(0))), ev(c08Call("rw", c08Const(0))), ev(c08Call("rs", c08Const(0))),
+				setv("setq", "uqw", c08Const(2)), ag(0), ag(1), ag(2), setv("setq", "uqv", c08Const(60)), ag(0), ag(1), ag(2)}},
+		)
+		// a definition inside a let that binds the name of a global variable; the name defined again at top
+		// level, inside another let, after fmakunbound; callers compiled in between
+		clo := func(init int64, k int64) *c08Def {
+			return &c08Def{Name: "f", Params: []string{"x"}, Binds: []c08Aux{{Name: "uqv", Init: c08Const(init)}}, Body: c08Prim("+", c08Prim("*", c08Var("uqv"), c08Const(k)), c08Var("x"))}
+		}
+		plain := func(k int64) *c08Def {
+			return &c08Def{Name: "f", Params: []string{"x"}, Body: c08Prim("+", c08Prim("*", c08Var("uqv"), c08Const(k)), c08Var("x"))}
+		}
+		bare := &c08Def{Name: "f", Params: []string{"x"}, Body: c08Var("uqv")}
+		caller := func(name string) *c08Def {
+			return &c08Def{Name: name, Params: []string{"x"}, Body: c08Call("f", c08Prim("+", c08Var("x"), c08Const(1)))}
+		}
+		cf := func(name string, n int64) *c08Expr { return c08Call(name, c08Const(n)) }
+		cells = append(cells,
+			c08Cell{"gvar-closure-shadow/redefine-toplevel", []c08Step{setv("defvar", "uqv", c08Const(100)), def(clo(5, 2), ""), def(caller("g"), ""), ev(cf("f", 1)), ev(cf("g", 1)),
+				def(plain(3), "redef"), ag(0), ag(1), setv("setq", "uqv", c08Const(200)), ag(0), ag(1)}},
+			c08Cell{"gvar-closure-shadow/redefine-toplevel-bare", []c08Step{setv("defvar", "uqv", c08Const(100)), def(clo(5, 2), ""), def(caller("g"), ""), ev(cf("g", 1)),
+				def(bare, "redef"), ag(0), ev(cf("f", 1)), setv("setq", "uqv", c08Const(200)), ag(0), ag(1)}},
+			c08Cell{"gvar-closure-shadow/variable-later", []c08Step{def(clo(5, 2), ""), def(caller("g"), ""), ev(cf("g", 1)), setv("defparameter", "uqv", c08Const(100)), ag(0),
+				def(plain(3), "redef"), ag(0), ev(cf("f", 1))}},
+			c08Cell{"gvar-closure-shadow/toplevel-first", []c08Step{setv("setq", "uqv", c08Const(100)), def(plain(3), ""), def(caller("g"), ""), ev(cf("g", 1)), def(clo(5, 2), "redef"), ag(0),
+				setv("setq", "uqv", c08Const(200)), ag(0), def(plain(4), "redef"), ag(0), def(clo(7, 2), "redef"), ag(0)}},
+			c08Cell{"gvar-closure-shadow/undefine-redefine", []c08Step{setv("defvar", "uqv", c08Const(100)), def(clo(5, 2), ""), def(caller("g"), ""), ev(cf("g", 1)), undef("f"), ag(0),
+				def(plain(3), "redef-after-undef"), ag(0), ev(cf("f", 1))}},
+		)
+	}
+	// macros without parameters: defmacro shares defun's machinery (DefLambda patches the registered
+	// Lambda, the creator refers to the shared one, closures): every scenario at a compile position and
+	// at a lazy position of the caller
+	for _, p := range positions {
+		if p.name != "body" && p.name != "prim-arg" && p.name != "if-then" && p.name != "let-init" {
+			continue
+		}
+		mac := func(k int64) *c08Def { return &c08Def{Name: "mc", Macro: true, Body: c08Prim("+", c08Const(k), c08Const(100))} }
+		macClo := func(cn string, k int64) *c08Def {
+			return &c08Def{Name: "mc", Macro: true, Binds: []c08Aux{{Name: cn, Init: c08Const(k)}}, Body: c08Prim("*", c08Var(cn), c08Const(2))}
+		}
+		mk := func(name string) *c08Def { return &c08Def{Name: name, Params: []string{"x"}, Body: p.body(c08Call("mc"))} }
+		g1, g2, g3 := mk("g"), mk("g2"), mk("g3")
+		cg := func(n string) *c08Expr { return c08Call(n, c08Const(3)) }
+		cells = append(cells,
+			c08Cell{"macro/backward/" + p.name, []c08Step{def(mac(1), ""), def(g1, ""), ev(cg("g")), ag(0)}},
+			c08Cell{"macro/forward/" + p.name, []c08Step{def(g1, ""), def(mac(1), ""), ev(cg("g")), ag(0), def(mac(2), "redef"), ag(0)}},
+			c08Cell{"macro/redefine-twice/" + p.name, []c08Step{def(mac(1), ""), ev(c08Call("mc")), def(mac(2), "redef"), def(g1, ""), ev(cg("g")), def(mac(3), "redef"), ag(0), ag(1), ev(cg("g")),
+				def(g2, ""), ev(cg("g2")), def(mac(4), "redef"), ag(1), ag(3)}},
+			c08Cell{"macro/closure/" + p.name, []c08Step{def(g1, ""), def(macClo("c0", 5), ""), ev(cg("g")), def(g2, ""), def(mac(1), "redef"), ag(0), ev(cg("g2")),
+				def(macClo("c1", 7), "redef"), ag(0), ag(1), def(g3, ""), ev(cg("g3")), def(macClo("c2", 9), "redef"), ag(0), ag(1), ag(2)}},
+			c08Cell{"macro/undefine-redefine/" + p.name, []c08Step{def(mac(1), ""), def(g1, ""), ev(cg("g")), undef("mc"), ag(0), def(g2, ""), def(mac(2), "redef-after-undef"), ag(0), ev(cg("g2")),
+				def(mac(3), "redef"), ag(0), ag(1)}},
+			c08Cell{"macro/function-then-macro/" + p.name, []c08Step{def(&c08Def{Name: "mc", Body: c08Const(1)}, ""), def(g1, ""), ev(cg("g")), def(mac(2), "redef"), ag(0), def(&c08Def{Name: "mc", Body: c08Const(3)}, "redef"), ag(0)}},
+		)
+	}
+	// a function defined again with a different parameter list: callers compiled before use the new one
+	for _, p := range positions {
+		if p.name != "body" && p.name != "call-arg" && p.name != "if-then" {
+			continue
+		}
+		g1 := &c08Def{Name: "g", Params: []string{"x"}, Body: p.body(callH())}
+		cg := c08Call("g", c08Const(3))
+		hOpt := &c08Def{Name: "h", Params: []string{"a"}, Opt: []c08Default{{"b", 7}, {"c", 9}}, Body: c08Prim("+", c08Prim("*", c08Var("a"), c08Const(10)), c08Prim("-", c08Var("b"), c08Var("c")))}
+		hKey := &c08Def{Name: "h", Params: []string{"a", "b"}, Key: []c08Default{{"k", 4}}, Aux: []c08Aux{{Name: "u", Init: c08Prim("+", c08Var("a"), c08Var("k"))}}, Body: c08Prim("*", c08Var("u"), c08Var("b"))}
+		hOne := &c08Def{Name: "h", Params: []string{"a"}, Body: c08Var("a")}
+		hThree := &c08Def{Name: "h", Params: []string{"a", "b", "c"}, Body: c08Var("c")}
+		cells = append(cells,
+			c08Cell{"redefine-params/optional/" + p.name, []c08Step{def(h(0), ""), def(g1, ""), ev(cg), def(hOpt, "redef"), ag(0), def(h(1), "redef"), ag(0)}},
+			c08Cell{"redefine-params/key-aux/" + p.name, []c08Step{def(g1, ""), def(h(0), ""), ev(cg), def(hKey, "redef"), ag(0), ev(cg)}},
+			c08Cell{"redefine-params/fewer/" + p.name, []c08Step{def(h(0), ""), def(g1, ""), ev(cg), def(hOne, "redef"), ag(0), def(h(2), "redef"), ag(0)}},
+			c08Cell{"redefine-params/more/" + p.name, []c08Step{def(g1, ""), def(h(0), ""), ev(cg), def(hThree, "redef"), ag(0), def(hOpt, "redef"), ag(0)}},
+		)
+	}
 	// self and mutual recursion with arguments that matter
 	fact := &c08Def{Name: "fa", Params: []string{"n", "a"}, Body: c08If(c08Prim("<", c08Var("n"), c08Const(1)), c08Var("a"),
 		c08Call("fa", c08Prim("-", c08Var("n"), c08Const(1)), c08Prim("+", c08Var("a"), c08Var("n"))))}
@@ -1915,7 +2232,7 @@ func c08ReplayMap(v *c08Variant, res *c08Result, at int, expectedFrom string) ma
 		"observed":      outs,
 		"expected":      v.model,
 		"expected_from": expectedFrom,
-		"relies_on":     []string{"SlipVerif.Compile.runC_correct", "SlipVerif.Compile.defs_commute", "SlipVerif.Compile.reeval_k", "SlipVerif.Compile.redefinition_takes_effect"},
+		"relies_on":     []string{"SlipVerif.Compile.runC_correct", "SlipVerif.Compile.defs_commute", "SlipVerif.Compile.reeval_k", "SlipVerif.Compile.redefinition_takes_effect", "SlipVerif.Compile.assignment_takes_effect", "SlipVerif.Compile.variable_definition_order"},
 	}
 }
 
@@ -2120,7 +2437,8 @@ func runC08(c *lib.Ctx) {
 	// --- single-cause sweep (seed independent)
 	cells := c08SweepCells()
 	for i, cell := range cells {
-		if !c08Admissible(cell.steps) {
+		if !strings.HasPrefix(cell.name, "redefine-params/") && !c08Admissible(cell.steps) {
+			// (the redefine-params cells call a function with too many / too few arguments on purpose)
 			fmt.Fprintf(os.Stderr, "C08: sweep cell %s is not admissible (harness bug)\n", cell.name)
 			os.Exit(2)
 		}
@@ -2188,6 +2506,7 @@ func runC08(c *lib.Ctx) {
 		info.nRefs = len(refs) - info.firstRef
 		progs = append(progs, info)
 		c.Ev.Hist("defs", strconv.Itoa(len(p.Defs)))
+		c.Ev.Hist("global-variables", strconv.Itoa(len(p.Vars)))
 		for _, e := range p.Events {
 			c.Ev.Hist("event", e)
 		}
@@ -2220,7 +2539,7 @@ func runC08(c *lib.Ctx) {
 	// runC_correct / defs_commute; a failure here is a machinery error, not a verdict)
 	for _, info := range progs {
 		direct, _ := c08ParseReply(replies[len(modelLines)+info.direct])
-		nd := len(info.p.Defs)
+		nd := len(info.p.Defs) + len(info.p.Vars)
 		for r := info.firstRef; r < info.firstRef+info.nRefs; r++ {
 			v := variants[refs[r].first]
 			if v.late >= 0 {
@@ -2350,6 +2669,11 @@ func runC08(c *lib.Ctx) {
 			outs = r.Outs
 		}
 		c.Ev.Sample(map[string]any{"history": c08HistoryText(v.steps), "mode": v.mode, "impl": strings.Join(outs, " "), "model": strings.Join(v.model, " ")})
+	}
+	if c.GenBroken != "" {
+		// a regenerated fact about the shared-cell code (Theorems/GenC08) no longer holds: this run is
+		// the witness search; without a failing input tools/check.py reports no-failing-input-found
+		c.Ev.Coverage["witness_search_for_broken_obligation"] = c.GenBroken
 	}
 	c.Ev.Coverage["traces_validated_against_impl"] = len(variants)
 	c.Ev.Coverage["agreements"] = agree
